@@ -10,6 +10,7 @@ import pathlib
 import pickle
 import tempfile
 from fractions import Fraction
+import warnings
 import numpy
 from .common import check, Timeout
 from .gen import count
@@ -692,4 +693,60 @@ def narrow_tables(inp):
         return f"the caller's exponent table (dtype {inp['dtype']}) was modified"
     if got != want:
         return f"exponent table {inp['rows']} of dtype {inp['dtype']} stored as {got}"
+    return None
+
+
+# ------------------------------------------------------------------ exponents that cannot be represented raise
+def gen_unrepresentable(tier, rng):
+    bad = [-1, -2, 0.5, 1.5, 1.7, 2.9, float("nan"), float("inf"), 2 ** 32, 2 ** 40, -0.5]
+    for e in bad:
+        for route in ("power_scalar", "power_array", "operator", "dict", "attributes", "ndpoly", "dict_second_column"):
+            if route in ("power_scalar", "power_array", "operator") and isinstance(e, int) and e >= 2 ** 32:
+                continue        # q0**k performs k multiplications before the constructor's range test can object: not run
+            yield {"e": e, "route": route}
+    for e in (0, 1, 2, 2.0, 3.0, True, 7):          # whole numbers in any numeric type are accepted and mean themselves
+        for route in ("power_scalar", "operator", "dict", "attributes"):
+            yield {"e": e, "route": route, "ok": True}
+
+
+@check("C20", "unrepresentable.exponents_raise", gen_unrepresentable,
+       functions=("numpoly.power", "numpoly.ndpoly", "numpoly.postprocess_attributes", "numpoly.polynomial"),
+       note="exhaustive over 11 exponents that are no storable exponent (negative, fractional, nan, inf, 2**32, 2**40) x 7 routes (q0**e, "
+            "numpoly.power with a number / an array exponent, polynomial({(e,): c}), polynomial_from_attributes, ndpoly(exponents=...), a "
+            "second column of a dict key; the two huge whole numbers only through the construction routes, a power performs that many "
+            "multiplications first): an exception is raised - never another monomial in its place; whole numbers given as int, "
+            "float or bool are accepted and mean themselves")
+def unrepresentable(inp):
+    import numpoly
+    e, route = inp["e"], inp["route"]
+    q0 = numpoly.variable()
+    try:
+        with warnings.catch_warnings():
+            warnings.simplefilter("ignore")
+            if route == "power_scalar":
+                r = numpoly.power(q0, e)
+            elif route == "power_array":
+                r = numpoly.power(q0, numpy.array([e, 2.0]))
+            elif route == "operator":
+                r = q0 ** e
+            elif route == "dict":
+                r = numpoly.polynomial({(e,): 3})
+            elif route == "dict_second_column":
+                r = numpoly.polynomial({(1, e): 3, (0, 0): 1})
+            elif route == "attributes":
+                r = numpoly.polynomial_from_attributes(numpy.array([[e]]), [3])
+            else:
+                r = numpoly.ndpoly(exponents=numpy.array([[e]]), shape=())
+    except Exception as exc:      # noqa: BLE001
+        if inp.get("ok"):
+            return f"exponent {e!r} ({type(e).__name__}) through {route} raised {type(exc).__name__}: {str(exc)[:80]}"
+        return None
+    if not inp.get("ok"):
+        return f"exponent {e!r} through {route} was accepted; the result is {r!r:.120} (exponents {numpy.asarray(r.exponents).tolist()})"
+    want = [[int(e)]]
+    got = numpy.asarray(r.exponents).tolist()
+    if route in ("power_scalar", "operator"):
+        want = [[int(e)]]
+    if got != want:
+        return f"exponent {e!r} through {route}: stored exponents {got}, expected {want}"
     return None
